@@ -7,6 +7,8 @@ package strategy
 
 import (
 	"context"
+	"encoding/json"
+	"fmt"
 	"sync"
 	"time"
 
@@ -52,6 +54,11 @@ func compareWithExtendedDaemonsetSettingOverwrite(pod *corev1.Pod, node *NodeIte
 	if node.ExtendedDaemonsetSetting != nil {
 		specCopy := pod.Spec.DeepCopy()
 		for id, container := range specCopy.Containers {
+			// a resources annotation on the node takes precedence over the setting for this container,
+			// as it does when the pod is created
+			if hasNodeResourcesOverwrite(pod, node, container.Name) {
+				continue
+			}
 			for _, container2 := range node.ExtendedDaemonsetSetting.Spec.Containers {
 				if container.Name == container2.Name {
 					for key, val := range container2.Resources.Limits {
@@ -77,6 +84,21 @@ func compareWithExtendedDaemonsetSettingOverwrite(pod *corev1.Pod, node *NodeIte
 	}
 
 	return true
+}
+
+// hasNodeResourcesOverwrite tells whether the node carries a usable resources annotation for this container.
+func hasNodeResourcesOverwrite(pod *corev1.Pod, node *NodeItem, containerName string) bool {
+	if node.Node == nil {
+		return false
+	}
+	key := fmt.Sprintf(datadoghqv1alpha1.ExtendedDaemonSetRessourceNodeAnnotationKey, pod.Namespace, pod.Labels[datadoghqv1alpha1.ExtendedDaemonSetNameLabelKey], containerName)
+	val, found := node.Node.GetAnnotations()[key]
+	if !found {
+		return false
+	}
+	var resources corev1.ResourceRequirements
+
+	return json.Unmarshal([]byte(val), &resources) == nil
 }
 
 func compareSpecTemplateMD5Hash(hash string, pod *corev1.Pod) bool {
